@@ -255,6 +255,51 @@ Theorem select_explicit_escapes : forall P c t cx p s q,
   P c cx p s = Err EExplicit q -> select_loop P (c :: t) cx p s = Err EExplicit q.
 Proof. intros. cbn [select_loop]. rewrite H. reflexivity. Qed.
 
+(* Select when BUILDING: every alternative builds into a stream of its own; what reaches the output is exactly what the first alternative that
+   builds the value produced there - nothing an earlier alternative wrote before it failed - and the value handed in is returned. *)
+Fixpoint first_built (B : con -> builder) (obj : val) (cs : list con) (cx : ctx) : option ostream :=
+  match cs with
+  | [] => None
+  | c :: t => match B c obj (reenter_ctx cx) [] ostream_new with
+              | Ok (_, o1) => Some o1
+              | Err _ _ => first_built B obj t cx
+              end
+  end.
+
+Theorem select_build_first_success : forall B obj cs cx p o,
+  (forall c e q, In c cs -> B c obj (reenter_ctx cx) [] ostream_new = Err e q -> swallowed e = true) ->
+  select_bloop B obj cs cx p o =
+  match first_built B obj cs cx with
+  | Some o1 => let* o' := owrite o (odata o1) (Z.of_nat (length (odata o1))) p in Ok (obj, o')
+  | None => raise ESelect p
+  end.
+Proof.
+  intros B obj cs cx p o. induction cs as [|c t IH]; intros Hsw; cbn [select_bloop first_built]; [reflexivity|].
+  destruct (B c obj (reenter_ctx cx) [] ostream_new) as [[v o1]|e q] eqn:E; [reflexivity|].
+  rewrite (Hsw c e q (or_introl eq_refl) E).
+  apply IH. intros c' e' q' Hin. apply Hsw. right. exact Hin.
+Qed.
+
+Theorem select_build_explicit_escapes : forall B obj c t cx p o q,
+  B c obj (reenter_ctx cx) [] ostream_new = Err EExplicit q -> select_bloop B obj (c :: t) cx p o = Err EExplicit q.
+Proof. intros. cbn [select_bloop]. rewrite H. reflexivity. Qed.
+
+(* the output before the Select is untouched by the alternatives that failed: whatever the list of alternatives in front of the one that builds *)
+Theorem select_build_failed_leave_no_trace : forall B obj pre c post cx p o v o1,
+  (forall c' e q, In c' pre -> B c' obj (reenter_ctx cx) [] ostream_new = Err e q -> swallowed e = true) ->
+  (forall c', In c' pre -> exists e q, B c' obj (reenter_ctx cx) [] ostream_new = Err e q) ->
+  B c obj (reenter_ctx cx) [] ostream_new = Ok (v, o1) ->
+  select_bloop B obj (pre ++ c :: post) cx p o = select_bloop B obj [c] cx p o.
+Proof.
+  intros B obj pre c post cx p o v o1 Hsw Hfail Hok. induction pre as [|a pre IH]; cbn [app].
+  - cbn [select_bloop]. rewrite Hok. reflexivity.
+  - cbn [select_bloop]. destruct (Hfail a (or_introl eq_refl)) as (e & q & E). rewrite E.
+    rewrite (Hsw a e q (or_introl eq_refl) E).
+    apply IH.
+    + intros c' e' q' Hin. apply Hsw. right. exact Hin.
+    + intros c' Hin. apply Hfail. right. exact Hin.
+Qed.
+
 (* GreedyRange: the elements are the successive successes; the failing element leaves no trace *)
 Theorem greedy_stops_clean : forall P fuel i cx p s e q,
   iseekable s = true -> P (ctx_set_index cx i) p s = Err e q -> swallowed e = true ->
